@@ -57,6 +57,7 @@ def protein_case(draw):
     if not hidden and not desc.get("cif") and len(desc["chains"]) == 2 and draw(st.integers(0, 3)) == 0:
         # blank chain ids next to explicit ones: pdb2pqr names a blank chain after its TER count
         blank = draw(st.sampled_from([[" ", "A"], [" ", "B"], ["A", " "], ["B", " "], [" ", " "]]))
+        desc.pop("order", None)  # (the known-finding layouts are defined by the file order of the chains)
         for ch, cid in zip(desc["chains"], blank):
             ch["id"] = cid
             ch["ter"] = True
